@@ -415,9 +415,28 @@ func c02Shapes(cfg string, env *fw.Env, unit string, res *fw.Result) {
 	}
 }
 
+// c02RawBatch: the engine's batch call with repeated keys (all entries under one sequence number) followed by up to
+// two maintenance / write steps, on the configurations that flush early; crash states inside every step
+func c02RawBatch(cfg string, env *fw.Env, unit string, res *fw.Result) {
+	batch := EngOp{Kind: "abatch", Sub: []EngOp{{Kind: "put", Key: "a"}, {Kind: "put", Key: "a"}, {Kind: "put", Key: "b"}, {Kind: "del", Key: "b"}, {Kind: "del", Key: "c"}, {Kind: "put", Key: "c"}}}
+	follow := []EngOp{{Kind: "put", Key: "d"}, {Kind: "flush"}, {Kind: "bg"}, {Kind: "reopen"}}
+	depthExtra := 1
+	if env.Thorough {
+		depthExtra = 2
+	}
+	for _, first := range [][]EngOp{{batch}, {{Kind: "put", Key: "c"}, batch}} {
+		sp := &c02Spec{Prop: "C02", Cfg: engCfgs[cfg], Alphabet: follow, Depth: len(first) + depthExtra, Keys: []string{"a", "b", "c", "d"}, Torn: true}
+		c02Explore(sp, first, env, unit, res)
+	}
+}
+
 func c02Unit(unit string, env *fw.Env) *fw.Result {
 	res := fw.NewResult()
 	parts := strings.Split(unit, "/")
+	if parts[0] == "rawbatch" {
+		c02RawBatch(parts[1], env, unit, res)
+		return res
+	}
 	if parts[0] == "shapes" {
 		c02Shapes(parts[1], env, unit, res)
 		return res
@@ -435,7 +454,7 @@ func init() {
 	fw.Register(&fw.Check{
 		ID:    "C02",
 		Level: "fault_enumeration",
-		Rule: "explicit-state search over engine programs {put a, put b, del a, 2-key commit, flush, bg, reopen, compact} up to the depth per configuration (sync immediate/none/batch, memtable 32 MiB / 1 B incl. max-memtables 2); every file-system call of the run is recorded; for each program every crash state inside its last operation is materialised (all prefixes of the call log, plus torn variants of every write: all lengths for writes <=512 B, else record boundaries +-8, page multiples, first/last 64) and opened with the real engine. Oracle: the recovered state (gets and scan) equals the model after j operations for an admissible j (acked <= j <= issued with synchronous logging, 0 <= j <= issued otherwise, a transaction counts as one operation); then 2 writes, clean close, reopen: state and sequence stamps continue correctly. Shape sub-run (sync immediate / none / batch): a 90 KB three-entry commit or a 70 KB put issued behind one or two small writes (or behind another such commit), followed by one of {put, delete, reopen, flush}, same crash enumeration inside the large write and inside the step after it. Non-trivial = crash cuts strictly inside an operation",
+		Rule: "explicit-state search over engine programs {put a, put b, del a, 2-key commit, flush, bg, reopen, compact} up to the depth per configuration (sync immediate/none/batch, memtable 32 MiB / 1 B incl. max-memtables 2); every file-system call of the run is recorded; for each program every crash state inside its last operation is materialised (all prefixes of the call log, plus torn variants of every write: all lengths for writes <=512 B, else record boundaries +-8, page multiples, first/last 64) and opened with the real engine. Oracle: the recovered state (gets and scan) equals the model after j operations for an admissible j (acked <= j <= issued with synchronous logging, 0 <= j <= issued otherwise, a transaction counts as one operation); then 2 writes, clean close, reopen: state and sequence stamps continue correctly. Raw-batch sub-run: a batch with repeated keys (put/put, put/delete, delete/put under one sequence number) through the engine's batch call, followed by <=1 (2 thorough) steps of {put, flush, bg, reopen}, memtable 1 B / 40 B. Shape sub-run (sync immediate / none / batch): a 90 KB three-entry commit or a 70 KB put issued behind one or two small writes (or behind another such commit), followed by one of {put, delete, reopen, flush}, same crash enumeration inside the large write and inside the step after it. Non-trivial = crash cuts strictly inside an operation",
 		Assumptions: []string{"process-death crash model: completed writes survive, fsync is irrelevant, power loss is not modelled", "single client; background flush runs at explicit bg steps"},
 		Units: func(tier string) []string {
 			var us []string
@@ -450,6 +469,9 @@ func init() {
 			}
 			for _, cfg := range []string{"big", "bigN", "bigB"} {
 				us = append(us, "shapes/"+cfg)
+			}
+			for _, cfg := range []string{"tiny", "two"} {
+				us = append(us, "rawbatch/"+cfg)
 			}
 			return us
 		},
